@@ -383,7 +383,11 @@ def warping_paths(seq_t[:, :] dtw, seq_t[:] s1, seq_t[:] s2,
     req_length = dtaidistancec_dtw.dtw_settings_wps_length(len(s1), len(s2), &settings._settings)
     req_width = dtaidistancec_dtw.dtw_settings_wps_width(len(s1), len(s2), &settings._settings)
     shape = (1, req_length)
-    if req_length == dtw_length and req_width == dtw.shape[1]:
+    cdef dtaidistancec_dtw.DTWWps wps_parts = dtaidistancec_dtw.dtw_wps_parts(len(s1), len(s2), &settings._settings)
+    # The given matrix can only serve as the compact datastructure if no row of the compact
+    # layout is shifted, thus if the window never leaves the first column (regions C and D are empty)
+    no_compact = (req_length == dtw_length and req_width == dtw.shape[1] and wps_parts.ri2 == len(s1))
+    if no_compact:
         # No compact WPS array is required
         wps = dtw
     else:
@@ -398,7 +402,7 @@ def warping_paths(seq_t[:, :] dtw, seq_t[:] s1, seq_t[:] s2,
     
     d = dtaidistancec_dtw.dtw_warping_paths(&wps_view[0,0], &s1[0], len(s1), &s2[0], len(s2),
                                             True, keep_int_repr, psi_neg, &settings._settings)
-    if not (req_length == dtw_length and req_width == dtw.shape[1]):
+    if not no_compact:
         dtaidistancec_dtw.dtw_expand_wps(&wps_view[0,0], &dtw[0, 0], len(s1), len(s2), &settings._settings)
     return d
 
@@ -424,7 +428,11 @@ def warping_paths_ndim(seq_t[:, :] dtw, seq_t[:, :] s1, seq_t[:, :] s2,
     req_length = dtaidistancec_dtw.dtw_settings_wps_length(len(s1), len(s2), &settings._settings)
     req_width = dtaidistancec_dtw.dtw_settings_wps_width(len(s1), len(s2), &settings._settings)
     shape = (1, req_length)
-    if req_length == dtw_length and req_width == dtw.shape[1]:
+    cdef dtaidistancec_dtw.DTWWps wps_parts = dtaidistancec_dtw.dtw_wps_parts(len(s1), len(s2), &settings._settings)
+    # The given matrix can only serve as the compact datastructure if no row of the compact
+    # layout is shifted, thus if the window never leaves the first column (regions C and D are empty)
+    no_compact = (req_length == dtw_length and req_width == dtw.shape[1] and wps_parts.ri2 == len(s1))
+    if no_compact:
         # No compact WPS array is required
         wps = dtw
     else:
@@ -439,7 +447,7 @@ def warping_paths_ndim(seq_t[:, :] dtw, seq_t[:, :] s1, seq_t[:, :] s2,
     
     d = dtaidistancec_dtw.dtw_warping_paths_ndim(&wps_view[0,0], &s1[0,0], len(s1), &s2[0,0], len(s2),
                                                  True, keep_int_repr, psi_neg, ndim, &settings._settings)
-    if not (req_length == dtw_length and req_width == dtw.shape[1]):
+    if not no_compact:
         dtaidistancec_dtw.dtw_expand_wps(&wps_view[0,0], &dtw[0, 0], len(s1), len(s2), &settings._settings)
     return d
 
@@ -466,7 +474,11 @@ def warping_paths_affinity(seq_t[:, :] dtw, seq_t[:] s1, seq_t[:] s2,
     req_length = dtaidistancec_dtw.dtw_settings_wps_length(len(s1), len(s2), &settings._settings)
     req_width = dtaidistancec_dtw.dtw_settings_wps_width(len(s1), len(s2), &settings._settings)
     shape = (1, req_length)
-    if req_length == dtw_length and req_width == dtw.shape[1]:
+    cdef dtaidistancec_dtw.DTWWps wps_parts = dtaidistancec_dtw.dtw_wps_parts(len(s1), len(s2), &settings._settings)
+    # The given matrix can only serve as the compact datastructure if no row of the compact
+    # layout is shifted, thus if the window never leaves the first column (regions C and D are empty)
+    no_compact = (req_length == dtw_length and req_width == dtw.shape[1] and wps_parts.ri2 == len(s1))
+    if no_compact:
         # No compact WPS array is required
         wps = dtw
     else:
@@ -483,7 +495,7 @@ def warping_paths_affinity(seq_t[:, :] dtw, seq_t[:] s1, seq_t[:] s2,
                                                      True, True, psi_neg, only_triu,
                                                      gamma, tau, delta, delta_factor,
                                                      &settings._settings)
-    if not (req_length == dtw_length and req_width == dtw.shape[1]):
+    if not no_compact:
         dtaidistancec_dtw.dtw_expand_wps_affinity(&wps_view[0,0], &dtw[0, 0], len(s1), len(s2), &settings._settings)
     return d
 
